@@ -166,7 +166,7 @@ func prop(c Case) (o pbt.Outcome) {
 		o.Failf("start", "valid configuration did not start: %v", err)
 		return
 	}
-	defer env.Stop()
+	defer env.StopBounded(3 * time.Second)
 	maxWall := 90 * time.Second
 	if c.Big {
 		maxWall = 240 * time.Second
